@@ -210,6 +210,12 @@ def scenarios(tier):
         sc = {'dll': DLL, 'stacks': stacks3(255, 255, 1), 'base_lat': 1e-3, 'send_cost': 0.005,
               'msgs': [msg(0x10, 'p2p', 0x20, size)], 'horizon': 8.0}
         items.append((sc, 0))
+    # ... and a window that ends in the middle of the message after more than T3 inside one pass (the responder grants 128 /
+    # 200 of 255 packets, 10 / 6.5 ms per frame): the time-out for the next CTS runs from the window's last packet
+    for (win_b, cost, size) in ((128, 0.010, 1785), (200, 0.0065, 1785), (128, 0.010, 1000)):
+        sc = {'dll': DLL, 'stacks': stacks3(255, win_b, 1), 'base_lat': 1e-3, 'send_cost': cost,
+              'msgs': [msg(0x10, 'p2p', 0x20, size)], 'horizon': 10.0}
+        items.append((sc, 0))
     # (c2) two outgoing sessions of one stack (a long one in small windows, a short one that finishes meanwhile) and, with a
     #      blocking driver, a third message for the short one's pair right after the n-th bus frame, for every n: it lands while
     #      the job thread is held inside a send of the long session
